@@ -46,6 +46,19 @@ func (p propSpec) Deadline(tier int) time.Duration { return p.DeadlineT[tier] }
 const techSX = "symbolic execution of the real code's go/ssa (GoSX) with SMT (z3) deciding every branch and assertion over all values of the symbolic inputs within the stated bounds; counterexamples replayed natively"
 
 var properties = map[string]propSpec{
+	"C13": {
+		Level: "model_checking", Technique: techSX + "; effect monitor for datum immutability; bounded call histories compared with fresh evaluators",
+		Bounds:  [2]string{"histories of 2 calls (3 datum families: symbolic well-typed, ill-typed/erroring, concrete) over 24 expressions x 4 option sets, third compared with a fresh evaluator; Execute on slices/maps/pointer slices of 3-4 symbolic elements; Expression() on 4 templates with 1-3 symbolic bytes", "histories of 3 calls"},
+		Outside: "longer histories (covered by C12's effect result: a call that writes no pre-existing state cannot influence a later one); other expressions",
+		Race:    false,
+	},
+	"C12": {
+		Level: "model_checking", Technique: techSX + "; effect monitor (writes to cells that pre-exist the call) and synchronisation monitor over every explored path, plus a memory-model argument that makes the verdict schedule-independent",
+		Bounds:  [2]string{"24 expressions (every operator incl. matches/not matches, in on every collection kind, quantifiers in 3 binding modes, connectives, JSON pointer, erroring and absent selectors) x 4 option sets (none, unknown value, unwrap hook + tag, unknown + budget + identity hook) on a symbolic datum; first and second use; Filter.Execute over slices and maps; CreateEvaluator", "same"},
+		Outside: "expressions and options outside the family; the inside of regexp (documented safe for concurrent use) and reflect",
+		Race:    true,
+		Assumptions: []string{"Go memory model: without synchronisation two calls race iff they touch a common cell and one touch is a write; a path that writes no pre-existing cell and publishes no fresh cell cannot race with a concurrent call", "regexp.Regexp is safe for concurrent use (documented)"},
+	},
 	"C17": {
 		Level: "model_checking", Technique: techSX,
 		Bounds:  [2]string{"containers of 0..2 elements ([]T, named slice, [2]T, []*T, map[string]T, map[int]T, map[namedString]*T) whose elements' outcomes are free (true/false/error); nil filter; 7 non-container inputs incl. nil; idempotence; E / not(E) partition", "containers of 0..3 elements"},
